@@ -75,7 +75,7 @@ AppInQ == {a, Cx("f", <<a>>), EmptyList, Lst(<<a, b>>), Lst(<<a, Lst(<<b>>)>>), 
            X, LstT(<<a>>, Y), Lst(<<X>>)}       \* (a list whose only element is a variable)
 AppPriors == {P(b, Lst(<<b, Atom("c")>>), NoT), P(Lst(<<Atom("c"), Lst(<<Atom("d")>>)>>), EmptyList, NoT),
               P(Z, Lst(<<Lst(<<Atom("d")>>)>>), Atom("c")), P(Cx("f", <<b>>), LstT(<<a>>, Z), Lst(<<Cx("f", <<a>>)>>)),
-              P(Z, Lst(<<b>>), IntT(7))}
+              P(Z, Lst(<<b>>), IntT(7)), P(a, NoT, NoT)}       \* (the last one leaves the tail variable $Y unbound)
 AppOuts == {O, Lst(<<a, b>>), LstT(<<Z>>, O), Lst(<<a, a, b>>)}
 AppCalls ==
     LET In == IF Thorough THEN AppIn ELSE AppInQ IN
